@@ -1,3 +1,3 @@
 #!/bin/bash
 # property-level replay for C02: exactness of the column walker and of the foreign-key bit-set through the real SQLite differ
-exec /verif/replays_src/run_overlay_test.sh /repo sql/internal/sqlx /verif/replays_src/C02/diff_exact_test.go 'TestGvcReplay(DiffExact|FKChange)'
+exec /verif/replays_src/run_overlay_test.sh /repo sql/internal/sqlx /verif/replays_src/C02/diff_exact_test.go 'TestGvcReplay(DiffExact|FKChange|ColumnFlags)'
